@@ -129,7 +129,7 @@ func (m *Agreement) AfterStep(c *sim.Cluster) []ev.Violation {
 		if n == nil {
 			continue
 		}
-		if !n.FullHistory() && !m.IncludeFF {
+		if !n.FullHistory() && (!m.IncludeFF || n.Stalled > 0) {
 			continue
 		}
 		start := m.seen[n.Idx]
